@@ -1064,7 +1064,9 @@ pub fn check_e2e(c: &E2eCase) -> Outcome {
         res
     });
     if let Err((sig, msg)) = r {
-        if msg.starts_with("HANG") {
+        if msg.starts_with("HANG") || crate::tools::sampler::is_init_failure(&msg) {
+            // a wall density whose start points (center + jitter) all lie behind the wall cannot be initialised:
+            // the documented error of Sampler, nothing was stored, nothing to judge
             o.skipped = Some(msg);
             return o;
         }
